@@ -60,7 +60,8 @@ type harness struct {
 	checks []check
 	groups int
 	// probes
-	mustLoadFatal bool // malformed file terminates the process (unfixed DefaultFileParser)
+	mustLoadFatal bool           // malformed file terminates the process (unfixed DefaultFileParser)
+	hangs         map[string]int // hangs seen per re-entrant observer kind (a kind that hung twice is not tried again)
 }
 
 func (h *harness) add(c check) { h.checks = append(h.checks, c) }
@@ -117,11 +118,15 @@ type obsTarget struct {
 	when       string // registered: before-construction | after-construction | between-reloads
 	registered bool
 	prev       int
-	light      bool // count only
+	light      bool                  // count only
+	hook       func(c config.Config) // re-entrant behaviour: runs inside the notification
 }
 
 func (o *obsTarget) ApplyConfig(c config.Config) {
 	o.count++
+	if o.hook != nil {
+		o.hook(c)
+	}
 	if o.light {
 		return
 	}
@@ -928,7 +933,7 @@ func main() {
 			rep.Note("replay of %s: streams re-run with seed %d tier %s", env.Replay, env.Seed, env.Tier)
 		}
 	}
-	h := &harness{env: env, rep: rep, rng: vh.NewRng(env.Seed)}
+	h := &harness{env: env, rep: rep, rng: vh.NewRng(env.Seed), hangs: map[string]int{}}
 	rep.Rule = "getter table (every pool value × 8 getters × defaults) + random properties texts (grammar: comments with '=', blank lines, " +
 		"escapes, ':' and blank separators, unicode, empty values, continuation, CRLF; 4% malformed) + write-back cases (text × assignments, 55% inside the " +
 		"well-formedness class) + edit histories (controlled mtimes with several edits per second, natural mtimes, deletions, reloads) + crash-prefix replay + " +
